@@ -35,6 +35,9 @@ use sozu_command_lib::{
 use sozu_lib::server::Server;
 use verif_harness::*;
 
+#[path = "../h2bb.rs"]
+mod h2bb;
+
 const OK: i32 = 0;
 const PROCESSING: i32 = 1;
 const FAILURE: i32 = 2;
@@ -154,6 +157,122 @@ fn start_backends(base: u16) {
     }
 }
 
+/// UDP twins of the scripted backends: answer every datagram with the tag
+fn start_udp_backends(base: u16) {
+    for i in 0..2u16 {
+        if let Ok(sock) = std::net::UdpSocket::bind(("127.0.0.1", base + 4 + i)) {
+            std::thread::spawn(move || {
+                let mut buf = [0u8; 2048];
+                loop {
+                    match sock.recv_from(&mut buf) {
+                        Ok((_, from)) => {
+                            if std::env::var_os("C08_DEBUG").is_some() {
+                                eprintln!("udp mock b{i} got a datagram from {from}");
+                            }
+                            let _ = sock.send_to(format!("b{i}").as_bytes(), from);
+                        }
+                        Err(e) => {
+                            if std::env::var_os("C08_DEBUG").is_some() {
+                                eprintln!("udp mock b{i} recv error {e}");
+                            }
+                            continue;
+                        }
+                    }
+                }
+            });
+        }
+    }
+}
+
+/// one datagram through the worker's UDP listener: the tag that comes back
+/// `src` picks the client's loopback address: UDP flows are keyed by the client's address
+/// (by default its IP alone), so every probe that wants a flow of its own comes from another one
+fn udp_ping(port: u16, wait_ms: u64, src: u8) -> Option<String> {
+    let s = std::net::UdpSocket::bind((std::net::Ipv4Addr::new(127, 0, 1, src), 0)).ok()?;
+    s.set_read_timeout(Some(Duration::from_millis(wait_ms))).ok();
+    for attempt in 0..3 {
+        s.send_to(b"ping", ("127.0.0.1", port)).ok()?;
+        let mut buf = [0u8; 64];
+        if let Ok((n, _)) = s.recv_from(&mut buf) {
+            if std::env::var_os("C08_DEBUG").is_some() {
+                eprintln!("udp answer at attempt {attempt}");
+            }
+            return Some(String::from_utf8_lossy(&buf[..n]).to_string());
+        }
+        if wait_ms < 1000 {
+            break;
+        }
+    }
+    None
+}
+
+/// a TCP relay probe: what the backend behind the TCP listener answers (its tag), if anything
+fn tcp_relay(port: u16) -> Option<String> {
+    let a: std::net::SocketAddr = ([127, 0, 0, 1], port).into();
+    let mut s = std::net::TcpStream::connect_timeout(&a, Duration::from_millis(500)).ok()?;
+    s.set_read_timeout(Some(Duration::from_secs(2))).ok();
+    s.write_all(b"GET / HTTP/1.1\r\n\r\n").ok()?;
+    let mut buf = vec![];
+    let mut tmp = [0u8; 1024];
+    loop {
+        match s.read(&mut tmp) {
+            Ok(0) | Err(_) => break,
+            Ok(n) => {
+                buf.extend_from_slice(&tmp[..n]);
+                if buf.ends_with(b"b0") || buf.ends_with(b"b1") {
+                    break;
+                }
+            }
+        }
+    }
+    if buf.len() < 2 {
+        return None;
+    }
+    Some(String::from_utf8_lossy(&buf[buf.len() - 2..]).to_string())
+}
+
+/// a TLS handshake with SNI `name` and one GET: (status, last two bytes, SHA-256 of the leaf certificate)
+fn tls_get(port: u16, name: &str, path: &str) -> Option<(u16, String, Vec<u8>)> {
+    use rustls::pki_types::ServerName;
+    let _ = rustls::crypto::ring::default_provider().install_default();
+    let config = rustls::ClientConfig::builder()
+        .dangerous()
+        .with_custom_certificate_verifier(std::sync::Arc::new(h2bb::Verifier))
+        .with_no_client_auth();
+    let sn = ServerName::try_from(name.to_owned()).ok()?;
+    let mut conn = rustls::ClientConnection::new(std::sync::Arc::new(config), sn).ok()?;
+    let a: std::net::SocketAddr = ([127, 0, 0, 1], port).into();
+    let mut tcp = std::net::TcpStream::connect_timeout(&a, Duration::from_millis(500)).ok()?;
+    tcp.set_read_timeout(Some(Duration::from_secs(3))).ok();
+    tcp.set_write_timeout(Some(Duration::from_secs(3))).ok();
+    while conn.is_handshaking() {
+        conn.complete_io(&mut tcp).ok()?;
+    }
+    let fp = sozu_command_lib::certificate::calculate_fingerprint_from_der(conn.peer_certificates()?.first()?.as_ref());
+    let mut tls = rustls::Stream::new(&mut conn, &mut tcp);
+    tls.write_all(format!("GET {path} HTTP/1.1\r\nHost: {name}\r\nConnection: close\r\n\r\n").as_bytes()).ok()?;
+    let mut buf = vec![];
+    let mut tmp = [0u8; 4096];
+    loop {
+        match tls.read(&mut tmp) {
+            Ok(0) | Err(_) => break,
+            Ok(n) => buf.extend_from_slice(&tmp[..n]),
+        }
+        if let Some(p) = buf.windows(4).position(|w| w == b"\r\n\r\n") {
+            let head = String::from_utf8_lossy(&buf[..p]).to_ascii_lowercase();
+            if let Some(cl) = head.lines().find_map(|l| l.strip_prefix("content-length:").map(|v| v.trim().parse::<usize>().unwrap_or(0))) {
+                if buf.len() >= p + 4 + cl {
+                    break;
+                }
+            }
+        }
+    }
+    let text = String::from_utf8_lossy(&buf).to_string();
+    let code = text.split_whitespace().nth(1).and_then(|c| c.parse::<u16>().ok()).unwrap_or(0);
+    let tail: String = text.chars().rev().take(2).collect::<Vec<_>>().into_iter().rev().collect();
+    Some((code, tail, fp))
+}
+
 fn tcp_accepts(port: u16) -> bool {
     let a: std::net::SocketAddr = ([127, 0, 0, 1], port).into();
     std::net::TcpStream::connect_timeout(&a, Duration::from_millis(500)).is_ok()
@@ -190,6 +309,10 @@ fn http_get(port: u16, host: &str, path: &str) -> Option<(u16, String)> {
 }
 
 struct W {
+    tcp_ambiguous: bool,
+    n_tcp: usize,
+    n_udp: usize,
+    n_tls: usize,
     n_listen: usize,
     n_http: usize,
     routing_unknown: bool,
@@ -212,8 +335,9 @@ fn addr(port: u16) -> SocketAddress {
 fn mk(verb: &str, k: usize, base: u16) -> Option<Request> {
     let rt = |r: RequestType| Some(Request { request_type: Some(r) });
     let cl = format!("c{}", k % 3);
-    let port = base + (k % 3) as u16;
     let bad = k >= 6;
+    // listener verbs pick the listener type with k % 4; the UDP listener lives at base + 3
+    let port = if !bad && k % 4 == 3 && verb.ends_with("Listener") && !verb.starts_with("Update") { base + 3 } else { base + (k % 3) as u16 };
     let host = ["a.test", "b.test", "*.w.test"][k % 3].to_string();
     let http_front = |address: SocketAddress| RequestHttpFrontend {
         cluster_id: Some(cl.clone()),
@@ -256,8 +380,13 @@ fn mk(verb: &str, k: usize, base: u16) -> Option<Request> {
         })),
         "AddHttpFrontend" => rt(RequestType::AddHttpFrontend(http_front(addr(base)))),
         "RemoveHttpFrontend" => rt(RequestType::RemoveHttpFrontend(http_front(addr(base)))),
-        "AddHttpsFrontend" => rt(RequestType::AddHttpsFrontend(http_front(addr(base + 1)))),
-        "RemoveHttpsFrontend" => rt(RequestType::RemoveHttpsFrontend(http_front(addr(base + 1)))),
+        "AddHttpsFrontend" | "RemoveHttpsFrontend" => {
+            let mut f = http_front(addr(base + 1));
+            if !bad {
+                f.hostname = ["lolcatho.st", "test.local", "*.w.test"][k % 3].to_string();
+            }
+            rt(if verb == "AddHttpsFrontend" { RequestType::AddHttpsFrontend(f) } else { RequestType::RemoveHttpsFrontend(f) })
+        }
         "AddTcpFrontend" => rt(RequestType::AddTcpFrontend(RequestTcpFrontend { cluster_id: cl, address: addr(base + 2), ..Default::default() })),
         "RemoveTcpFrontend" => rt(RequestType::RemoveTcpFrontend(RequestTcpFrontend { cluster_id: cl, address: addr(base + 2), ..Default::default() })),
         "AddUdpFrontend" => rt(RequestType::AddUdpFrontend(RequestUdpFrontend { cluster_id: cl, address: addr(base + 3), ..Default::default() })),
@@ -366,7 +495,7 @@ fn start(base_port: u16) -> W {
             server.run();
         })
         .unwrap();
-    W { n_listen: 0, n_http: 0, routing_unknown: false, probes: 0, unknown: vec![], peer: Peer::new(b), job: Some(job), _scm: s2k, base_port, n: 0, master: ConfigState::new() }
+    W { tcp_ambiguous: false, n_tcp: 0, n_udp: 0, n_tls: 0, n_listen: 0, n_http: 0, routing_unknown: false, probes: 0, unknown: vec![], peer: Peer::new(b), job: Some(job), _scm: s2k, base_port, n: 0, master: ConfigState::new() }
 }
 
 impl W {
@@ -383,7 +512,16 @@ impl W {
                 }
             }
         }
-        if master_ok != worker_ok && (verb.contains("Frontend") || verb.contains("Backend") || verb.contains("Cluster")) {
+        // a second cluster put on the address of a TCP listener: the main process' state keeps both
+        // frontends, the listener can only hold one cluster
+        if verb == "AddTcpFrontend" && master_ok {
+            let n = self.master.tcp_fronts.values().filter(|fs| fs.iter().any(|f| f.address == sa(base + 2))).count();
+            if n >= 2 {
+                self.tcp_ambiguous = true;
+            }
+        }
+        let config_verb = verb.contains("Frontend") || verb.contains("Backend") || verb.contains("Cluster") || verb.contains("Certificate");
+        if config_verb && (master_ok != worker_ok || !master_ok) && !matches!(verb, "QueryClusterById" | "QueryClustersByDomain" | "QueryClustersHashes" | "QueryCertificatesFromWorkers") {
             // the main process would have told its client about the failure; the two sides
             // no longer hold the same configuration, nothing is claimed about routing any more
             self.routing_unknown = true;
@@ -392,7 +530,7 @@ impl W {
         if verb.contains("Listener") {
             if master_ok != worker_ok && (verb == "ActivateListener" || verb.starts_with("Add")) {
                 // e.g. the port could not be bound: nothing is claimed about that address any more
-                let p = if verb == "ActivateListener" { base + (k % 3) as u16 } else { base + ["AddHttpListener", "AddHttpsListener", "AddTcpListener", "AddUdpListener"].iter().position(|v| *v == verb).unwrap_or(0) as u16 };
+                let p = if verb == "ActivateListener" { if k < 6 && k % 4 == 3 { base + 3 } else { base + (k % 3) as u16 } } else { base + ["AddHttpListener", "AddHttpsListener", "AddTcpListener", "AddUdpListener"].iter().position(|v| *v == verb).unwrap_or(0) as u16 };
                 if !self.unknown.contains(&p) {
                     self.unknown.push(p);
                 }
@@ -471,6 +609,115 @@ impl W {
                 }
             }
         }
+        let tags_of = |master: &ConfigState, cluster: &str| -> Vec<String> {
+            master.backends.get(cluster).cloned().unwrap_or_default().iter().map(|b| format!("b{}", b.address.port().wrapping_sub(base + 4))).collect()
+        };
+        // TCP: connect + request through the activated TCP listener, the tag of the backend that answers
+        let tcp_verbs = matches!(verb, "AddTcpFrontend" | "RemoveTcpFrontend" | "AddBackend" | "RemoveBackend" | "ActivateListener");
+        let tcp_up = self.master.tcp_listeners.get(&sa(base + 2)).map(|l| l.active).unwrap_or(false) && !self.unknown.contains(&(base + 2));
+        if tcp_verbs && tcp_up && !self.routing_unknown && self.n_tcp < 6 {
+            self.n_tcp += 1;
+            let clusters: Vec<String> = self.master.tcp_fronts.iter().filter(|(_, fs)| fs.iter().any(|f| f.address == sa(base + 2))).map(|(c, _)| c.clone()).collect();
+            let mut allowed: Vec<Option<String>> = vec![];
+            if clusters.is_empty() {
+                allowed.push(None);
+            }
+            for c in &clusters {
+                let tags = tags_of(&self.master, c);
+                if tags.is_empty() {
+                    allowed.push(None);
+                }
+                allowed.extend(tags.into_iter().map(Some));
+            }
+            let got = tcp_relay(base + 2);
+            if !allowed.contains(&got) {
+                out.viol(if self.tcp_ambiguous { "tcp-two-clusters" } else { "tcp-mismatch" }, &format!("after {verb} {k}: the TCP listener relayed to {:?}, the main process' view allows {:?}", got, allowed));
+            }
+        }
+        // UDP: one datagram through the activated UDP listener
+        let udp_verbs = matches!(verb, "AddUdpFrontend" | "RemoveUdpFrontend" | "AddBackend" | "RemoveBackend" | "ActivateListener" | "DeactivateListener");
+        let udp_known = !self.unknown.contains(&(base + 3)) && !self.routing_unknown;
+        if udp_verbs && udp_known && self.n_udp < 5 {
+            let up = self.master.udp_listeners.get(&sa(base + 3)).map(|l| l.active).unwrap_or(false);
+            let clusters: Vec<String> = self.master.udp_fronts.iter().filter(|(_, fs)| fs.iter().any(|f| f.address == sa(base + 3))).map(|(c, _)| c.clone()).collect();
+            let mut allowed: Vec<Option<String>> = vec![];
+            if !up || clusters.is_empty() {
+                allowed.push(None);
+            } else {
+                for c in &clusters {
+                    let tags = tags_of(&self.master, c);
+                    if tags.is_empty() {
+                        allowed.push(None);
+                    }
+                    allowed.extend(tags.into_iter().map(Some));
+                }
+            }
+            // only the cases that expect an answer, or a listener that was up before, are worth the wait
+            if allowed.iter().any(|a| a.is_some()) || verb == "DeactivateListener" {
+                self.n_udp += 1;
+                let got = udp_ping(base + 3, if allowed.contains(&None) { 150 } else { 1500 }, self.n_udp as u8);
+                if !allowed.contains(&got) {
+                    out.viol("udp-mismatch", &format!("after {verb} {k}: a datagram to the UDP listener came back as {:?}, the main process' view allows {:?}", got, allowed));
+                }
+            }
+        }
+        // HTTPS: TLS handshake + request; the certificate served and the cluster that answers
+        let tls_verbs = matches!(verb, "AddCertificate" | "RemoveCertificate" | "ReplaceCertificate" | "AddHttpsFrontend" | "RemoveHttpsFrontend" | "AddBackend" | "RemoveBackend" | "ActivateListener");
+        let tls_up = self.master.https_listeners.get(&sa(base + 1)).map(|l| l.active).unwrap_or(false) && !self.unknown.contains(&(base + 1));
+        if tls_verbs && tls_up && !self.routing_unknown && self.n_tls < 6 {
+            self.n_tls += 1;
+            let fp1 = sozu_command_lib::certificate::calculate_fingerprint(CERT.as_bytes()).unwrap_or_default();
+            let fp2 = sozu_command_lib::certificate::calculate_fingerprint(CERT2.as_bytes()).unwrap_or_default();
+            let held: Vec<Vec<u8>> = self.master.certificates.get(&sa(base + 1)).map(|m| m.keys().map(|f| f.0.clone()).collect()).unwrap_or_default();
+            // lib/assets/certificate.pem is also the worker's built-in default certificate: it is
+            // served to every name nothing else covers, held or not
+            let default_fp = Some(fp1.clone());
+            for (name, own) in [("lolcatho.st", &fp1), ("test.local", &fp2)] {
+                let path = "/api/x";
+                let Some((code, tail, fp)) = tls_get(base + 1, name, path).or_else(|| tls_get(base + 1, name, path)) else {
+                    // no handshake at all is only acceptable when the main process holds no certificate for the name
+                    if held.contains(own) {
+                        out.viol("tls-mismatch", &format!("after {verb} {k}: no TLS answer for {name} although the main process' view holds its certificate"));
+                    }
+                    continue;
+                };
+                // a certificate of the pool is served only while the main process' view holds it, and
+                // the name's own certificate is the one served when it is held
+                if (fp == fp1 || fp == fp2) && !held.contains(&fp) && Some(&fp) != default_fp.as_ref() {
+                    out.viol("tls-mismatch", &format!("after {verb} {k}: {name} is served a certificate the main process' view does not hold"));
+                }
+                if held.contains(own) && &fp != own {
+                    out.viol("tls-mismatch", &format!("after {verb} {k}: {name} is not served its own certificate although the main process' view holds it"));
+                }
+                let mut best: Vec<(usize, Option<String>)> = vec![];
+                for f in self.master.https_fronts.values() {
+                    if f.address != sa(base + 1) || f.method.is_some() || f.hostname != name || f.path.kind != 0 || !path.starts_with(&f.path.value) {
+                        continue;
+                    }
+                    best.push((f.path.value.len(), f.cluster_id.clone()));
+                }
+                let longest = best.iter().map(|b| b.0).max();
+                let mut allowed: Vec<(u16, String)> = vec![];
+                if best.is_empty() {
+                    allowed.push((404, String::new()));
+                }
+                for (_, c) in best.iter().filter(|b| Some(b.0) == longest) {
+                    match c {
+                        None => allowed.push((401, String::new())),
+                        Some(c) => {
+                            let tags = tags_of(&self.master, c);
+                            if tags.is_empty() {
+                                allowed.push((503, String::new()));
+                            }
+                            allowed.extend(tags.into_iter().map(|t| (200, t)));
+                        }
+                    }
+                }
+                if !allowed.iter().any(|(c, t)| *c == code && (*c != 200 || *t == tail)) {
+                    out.viol("route-mismatch", &format!("after {verb} {k}: GET {path} over TLS for {name} answered ({code}, {tail:?}), the main process' view allows {:?}", allowed));
+                }
+            }
+        }
     }
 
     fn send(&mut self, id: &str, req: &Request) -> bool {
@@ -520,6 +767,7 @@ fn run(case: &Case, out: &mut Out) {
             "worker" => {
                 let base = pick_base();
                 start_backends(base);
+                start_udp_backends(base);
                 w = Some(start(base));
                 out.obs(&[]);
             }
@@ -681,7 +929,7 @@ fn run(case: &Case, out: &mut Out) {
             }
             "end" => {
                 if let Some(mut wk) = w.take() {
-                    out.note(&format!("probes: {} connect, {} http", wk.n_listen, wk.n_http));
+                    out.note(&format!("probes: {} connect, {} http, {} tcp, {} udp, {} tls", wk.n_listen, wk.n_http, wk.n_tcp, wk.n_udp, wk.n_tls));
                     if !dead {
                         wk.n += 1;
                         let id = format!("REQ-{}", wk.n);
